@@ -244,10 +244,14 @@ func c02ViewObjects(e *Env, root string, r *rand.Rand) ([]c02Obj, model.ViewFunc
 	must(os.MkdirAll(filepath.Join(root, "PS3ISO"), 0o755))
 	must(os.MkdirAll(filepath.Join(root, "REDKEY"), 0o755))
 	must(os.MkdirAll(filepath.Join(root, "other"), 0o755))
-	for i := 0; i < e.Pick(4, 30); i++ {
+	for i := 0; i < e.Pick(6, 30); i++ {
 		sectors := 20 + r.Intn(200)
 		c := c10Case{Key: randBytes(r, 16), Sectors: sectors, Seed: r.Int63()}
 		c.Regions, c.Shape = genRegions(r, sectors)
+		if i%2 == 1 && i%3 != 2 {
+			// images that do not end on a sector border: the incomplete last sector is stored as it is
+			c.Tail = []int{1, 9, 1000, 2047}[(i/2)%4]
+		}
 		stored, _ := c.build()
 		name := "enc" + string(rune('a'+i%26)) + hex.EncodeToString(randBytes(r, 2))
 		var rel string
